@@ -62,6 +62,8 @@ class GeometricMTF(SpotDiagram):
         if max_freq == 'cutoff':
             # wavelength must be converted to mm for frequency units cycles/mm
             self.max_freq = 1 / (wavelength * 1e-3 * optic.paraxial.FNO())
+        else:
+            self.max_freq = max_freq
 
         super().__init__(optic, fields, [wavelength], num_rays, distribution)
 
